@@ -1143,6 +1143,7 @@ pub fn run_histories<S: System>(sys: &S, hists: &[Vec<String>], threads: usize, 
     let t0 = Instant::now();
     let wd = spawn_watchdog(20);
     let next = AtomicUsize::new(0);
+    let inj_work: std::sync::Mutex<Vec<(Vec<Step>, Vec<u32>)>> = std::sync::Mutex::new(vec![]);
     struct Out {
         fps: HashSet<u128>,
         transitions: u64,
@@ -1157,6 +1158,7 @@ pub fn run_histories<S: System>(sys: &S, hists: &[Vec<String>], threads: usize, 
         let hs: Vec<_> = (0..threads)
             .map(|w| {
                 let next = &next;
+                let inj_work = &inj_work;
                 sc.spawn(move || {
                     rt::set_worker(w);
                     let mut o = Out { fps: HashSet::new(), transitions: 0, injections: 0, nontrivial: 0, evals: 0, counters: HashMap::new(), viols: HashMap::new(), err: None };
@@ -1249,57 +1251,9 @@ pub fn run_histories<S: System>(sys: &S, hists: &[Vec<String>], threads: usize, 
                             }
                             cx.halt = false;
                         }
-                        // fault enumeration: a panic at every callback invocation of every step, then the rest of the history
+                        // fault enumeration (second phase below): a panic at every callback invocation of every step
                         if ok && inject {
-                            'inj: for k in 0..steps.len() {
-                                for i in 0..ncbs[k] {
-                                    cx.muted = true;
-                                    let pre = rebuild(sys, &steps[..k], &mut cx);
-                                    cx.muted = false;
-                                    let Some(mut ob) = pre else {
-                                        o.err = Some("replay of a validated prefix failed (family injection)".into());
-                                        return o;
-                                    };
-                                    let mut cur: Vec<Step> = steps[..k].to_vec();
-                                    let ist = Step { op: steps[k].op, inj: i };
-                                    cur.push(ist);
-                                    rt::hist_push(ist.enc());
-                                    sys.step(&mut ob, ist, &mut cx);
-                                    o.injections += 1;
-                                    let mut bad = !cx.viols.is_empty() || cx.halt;
-                                    if !bad {
-                                        rt::hist_push(OBSERVE_MARK);
-                                        sys.check_state(&ob, &mut cx);
-                                        cx.classes.clear();
-                                        bad = !cx.viols.is_empty() || cx.halt;
-                                    }
-                                    let mut j = k + 1;
-                                    while !bad && j < steps.len() {
-                                        if !sys.step_allowed(&ob, steps[j].op) {
-                                            j += 1;
-                                            continue;
-                                        }
-                                        rt::hist_push(steps[j].enc());
-                                        cur.push(steps[j]);
-                                        sys.step(&mut ob, steps[j], &mut cx);
-                                        o.transitions += 1;
-                                        if cx.viols.is_empty() && !cx.halt {
-                                            sys.check_state(&ob, &mut cx);
-                                            cx.classes.clear();
-                                        }
-                                        bad = !cx.viols.is_empty() || cx.halt;
-                                        j += 1;
-                                    }
-                                    if bad {
-                                        cx.halt = false;
-                                        let had = !cx.viols.is_empty();
-                                        file(&mut cx, &cur, &mut o);
-                                        if had {
-                                            break 'inj;
-                                        }
-                                    }
-                                }
-                            }
+                            inj_work.lock().unwrap().push((steps, ncbs));
                         }
                     }
                     rt::hist_idle();
@@ -1311,6 +1265,112 @@ pub fn run_histories<S: System>(sys: &S, hists: &[Vec<String>], threads: usize, 
             .collect();
         hs.into_iter().map(|h| h.join().expect("family worker panicked (machinery error)")).collect()
     });
+    // Second phase: the fault enumeration of every validated history, spread over the workers per (history, step)
+    // so that a few long histories do not serialise: for each step k and each callback i of that step, rebuild the
+    // prefix, run step k with a panic at callback i, check the state, then run and check the rest of the history.
+    let mut outs = outs;
+    let mut work = inj_work.into_inner().unwrap();
+    work.sort_by(|a, b| a.0.iter().map(|s| s.enc()).cmp(b.0.iter().map(|s| s.enc())));
+    if !work.is_empty() && outs.iter().all(|o| o.err.is_none()) {
+        let items: Vec<(usize, usize)> = work.iter().enumerate().flat_map(|(h, (st, _))| (0..st.len()).map(move |k| (h, k))).collect();
+        let next = AtomicUsize::new(0);
+        let failed: Vec<AtomicBool> = work.iter().map(|_| AtomicBool::new(false)).collect();
+        let outs2: Vec<Out> = std::thread::scope(|sc| {
+            let hs: Vec<_> = (0..threads)
+                .map(|w| {
+                    let (next, items, work, failed) = (&next, &items, &work, &failed);
+                    sc.spawn(move || {
+                        rt::set_worker(w);
+                        let mut o = Out { fps: HashSet::new(), transitions: 0, injections: 0, nontrivial: 0, evals: 0, counters: HashMap::new(), viols: HashMap::new(), err: None };
+                        let mut cx = Cx::new();
+                        loop {
+                            let n = next.fetch_add(1, Ordering::Relaxed);
+                            if n >= items.len() {
+                                break;
+                            }
+                            let (h, k) = items[n];
+                            if failed[h].load(Ordering::Relaxed) {
+                                continue;
+                            }
+                            let (steps, ncbs) = &work[h];
+                            for i in 0..ncbs[k] {
+                                rt::hist_reset();
+                                cx.muted = true;
+                                let pre = rebuild(sys, &steps[..k], &mut cx);
+                                cx.muted = false;
+                                let Some(mut ob) = pre else {
+                                    o.err = Some("replay of a validated prefix failed (family injection)".into());
+                                    return o;
+                                };
+                                let mut cur: Vec<Step> = steps[..k].to_vec();
+                                let ist = Step { op: steps[k].op, inj: i };
+                                cur.push(ist);
+                                rt::hist_push(ist.enc());
+                                sys.step(&mut ob, ist, &mut cx);
+                                o.injections += 1;
+                                let mut bad = !cx.viols.is_empty() || cx.halt;
+                                if !bad {
+                                    rt::hist_push(OBSERVE_MARK);
+                                    sys.check_state(&ob, &mut cx);
+                                    cx.classes.clear();
+                                    bad = !cx.viols.is_empty() || cx.halt;
+                                }
+                                let mut j = k + 1;
+                                while !bad && j < steps.len() {
+                                    if !sys.step_allowed(&ob, steps[j].op) {
+                                        j += 1;
+                                        continue;
+                                    }
+                                    rt::hist_push(steps[j].enc());
+                                    cur.push(steps[j]);
+                                    sys.step(&mut ob, steps[j], &mut cx);
+                                    o.transitions += 1;
+                                    if cx.viols.is_empty() && !cx.halt {
+                                        sys.check_state(&ob, &mut cx);
+                                        cx.classes.clear();
+                                    }
+                                    bad = !cx.viols.is_empty() || cx.halt;
+                                    j += 1;
+                                }
+                                if bad {
+                                    cx.halt = false;
+                                    let had = !cx.viols.is_empty();
+                                    let last = cur.last().map(|s| sys.fmt_step(*s)).unwrap_or_else(|| "new".into());
+                                    for v in cx.viols.drain(..) {
+                                        let sig = format!("{}/{}/{}", sys.name(), op_kind(&last), v.tag);
+                                        let key = (v.prop.to_string(), sig.clone());
+                                        let nv = Violation { prop: v.prop.to_string(), sig, msg: v.msg, hist: cur.to_vec(), count: 1, replay: String::new() };
+                                        match o.viols.get_mut(&key) {
+                                            Some((old, c)) => {
+                                                *c += 1;
+                                                if nv.hist.len() < old.hist.len() {
+                                                    *old = nv;
+                                                }
+                                            }
+                                            None => {
+                                                o.viols.insert(key, (nv, 1));
+                                            }
+                                        }
+                                    }
+                                    if had {
+                                        // one reported injection per history is enough: skip its remaining items
+                                        failed[h].store(true, Ordering::Relaxed);
+                                        break;
+                                    }
+                                }
+                            }
+                        }
+                        rt::hist_idle();
+                        o.evals = cx.evals;
+                        o.counters = std::mem::take(&mut cx.counters);
+                        o
+                    })
+                })
+                .collect();
+            hs.into_iter().map(|h| h.join().expect("family worker panicked (machinery error)")).collect()
+        });
+        outs.extend(outs2);
+    }
     let mut rep = Report {
         system: sys.name(),
         states: 0,
